@@ -59,11 +59,17 @@ def explore(run):
             raise RuntimeError("exploration too large")
 
 
-def _graph(n, edges):
+LABELS = {"canonical": None, "shifted": [1, 2, 3, 4, 5, 6, 7], "scrambled": [5, 2, 7, 0, 3, 9, 4]}
+
+
+def _graph(n, edges, labels=None):
+    """graph on n nodes; with `labels` the node at position i of graph.nodes carries the label labels[i] (the apps address weights
+    by position and return node labels)"""
     import networkx as nx
     g = nx.Graph()
-    g.add_nodes_from(range(n))
-    g.add_edges_from(edges)
+    lab = list(range(n)) if labels is None else list(labels[:n])
+    g.add_nodes_from(lab)
+    g.add_edges_from((lab[a], lab[b]) for a, b in edges)
     return g
 
 
@@ -72,17 +78,21 @@ def _explore_case(case):
     import numpy as np
     from strawberryfields.apps import clique as cq, subgraph as sg
     n, edges, start, mode, w, fn = case["n"], case["edges"], case["start"], case["mode"], case["w"], case["fn"]
-    g = _graph(n, edges)
+    lab = LABELS[case.get("labels", "canonical")]
+    lab = list(range(n)) if lab is None else lab[:n]
+    inv = {l: i for i, l in enumerate(lab)}
+    g = _graph(n, edges, lab)
+    start = [lab[i] for i in start]              # the routines see labels; all records are in canonical positions
     sel = mode if mode != "weight" else list(w)
     base = {"kind": "step", "n": n, "edges": [list(e) for e in edges], "w": list(w), "mode": mode, "limit": False}
     agg = {}
     orig_choice = np.random.choice
 
     def note(fnname, state, succ, ncand, stopped, limit=False):
-        key = (fnname, tuple(sorted(int(x) for x in state)))
+        key = (fnname, tuple(sorted(inv[x] for x in state)))
         r = agg.setdefault(key, {"succs": set(), "ncand": 0, "stopped": False, "limit": limit})
         if succ is not None:
-            r["succs"].add(tuple(sorted(int(x) for x in succ)))
+            r["succs"].add(tuple(sorted(inv[x] for x in succ)))
         r["ncand"] = max(r["ncand"], int(ncand))
         r["stopped"] = r["stopped"] or stopped
     try:
@@ -159,7 +169,7 @@ def _explore_case(case):
                 if down:
                     note("rshrink", down[-1], None, 0, True, limit=True)
                 for size, sub in out.items():
-                    if len(set(sub)) != size or not set(sub) <= set(range(n)) or list(sub) != sorted(sub):
+                    if len(set(sub)) != size or not set(sub) <= set(lab) or list(sub) != sorted(sub):
                         return [{"error": "ResizeNotASubset", "msg": "size %d -> %s" % (size, sub), "case": case}]
     except Exception as e:  # noqa
         return [{"error": type(e).__name__, "msg": str(e)[:200], "tb": traceback.format_exc()[-800:], "case": case}]
@@ -225,8 +235,23 @@ def _combinatorics(arg):
 
 def _conv_cases(arg):
     from strawberryfields.apps import similarity as sim
+    from strawberryfields.apps import sample as smp
     out = []
     for s in arg:
+        # sample -> node subset: the clicked modes, each once, as labels of the graph (canonical and relabelled)
+        for lname in ("canonical", "scrambled"):
+            lab = list(range(len(s))) if LABELS[lname] is None else LABELS[lname][:len(s)]
+            try:
+                g = _graph(len(s), [(i, i + 1) for i in range(len(s) - 1)], lab)
+                sub = smp.to_subgraphs([list(s)], g)[0]
+                want = [lab[i] for i, c in enumerate(s) if c > 0]
+                if sorted(sub, key=str) != sorted(want, key=str) or len(set(sub)) != len(sub):
+                    out.append({"error": "SubgraphNotTheClickedModes", "msg": "sample %s on labels %s -> %s, expected %s" % (list(s), lab, sub, want)})
+                mc = smp.modes_from_counts(list(s))
+                if list(mc) != [i for i, c in enumerate(s) for _ in range(c)]:
+                    out.append({"error": "ModesFromCounts", "msg": "sample %s -> %s" % (list(s), mc)})
+            except Exception as e:  # noqa
+                out.append({"error": type(e).__name__, "msg": "to_subgraphs(%s): %s" % (list(s), str(e)[:120])})
         for mc in (1, 2, 3):
             ev = sim.sample_to_event(list(s), mc)
             out.append({"kind": "conv", "sample": list(s), "orbit": [int(x) for x in sim.sample_to_orbit(list(s))],
@@ -308,6 +333,10 @@ def c19(chk):
                                 cases.append({"fn": "resize", "n": n, "edges": edges, "start": start, "mode": mode, "w": w})
     if tier == "quick":
         cases = [c for c in cases if c["n"] == 4] + rnd.sample([c for c in cases if c["n"] == 5], min(3000, len([c for c in cases if c["n"] == 5])))
+    # the same inputs on graphs whose node labels are not 0..n-1 in insertion order (weights are addressed by position)
+    relab = [dict(c, labels=lb) for k, c in enumerate(cases) for lb in ("shifted", "scrambled")
+             if c["n"] == 4 and (tier != "quick" or k % 4 == chk.seed % 4)]
+    cases = cases + relab
     res = common.pmap(_explore_case, cases)
     recs = []
     for lst in res:
